@@ -39,20 +39,24 @@ static VRes freshVerify(const Bytes &enc, const Bytes &doc, const VArgs &a) { Ct
 static void runHistory(Dec d /* by value: both cache configurations replay the same choices */, Case &c, int cacheSize, std::string &trace) {
     resetSim(); g_ext = Extender(); Server srv; srv.respond = [&](const Bytes &req, int) { return g_ext.respond(req); }; srv.attach();
     Ctx ctx; setupCtx(ctx); if (cacheSize >= 0) KSI_CTX_setOption(ctx, KSI_OPT_DATAHASH_CACHE_SIZE, (void *)(size_t)cacheSize);
+    KSI_VerificationContext sharedVc; KSI_VerificationContext_init(&sharedVc, ctx); sharedVc.extendingAllowed = 1; // one caller-owned context object reused by several calls: the SDK must not leave anything in it
     Chooser ch{[&](uint32_t n) { return d.pick(n); }, [&]() { return d.byte(); }}; std::vector<Live> pool; unsigned nops = 2 + d.pick(d.pick(4) == 0 ? 40 : 14); int verifies = 0, derives = 0; std::set<std::string> verdictKinds;
     auto allIntact = [&](const std::string &after) { for (size_t i = 0; i < pool.size() && !c.fail; i++) { Bytes now = serializeSig(pool[i].sig); if (now != pool[i].birth) VF_FAIL(c, "C11:serialization-changed:after-" + after.substr(0, after.find(' ')), "signature " + num((long long)i) + " (" + pool[i].origin + ") no longer serializes to its birth bytes after: " + after + " | history: " + trace); } };
     auto addParsed = [&]() { BuildOpts o; o.calSalt = 1 + d.pick(200); o.maxChains = 4; o.fixedTime = true; o.t = 1500000000 + d.pick(90000000); o.wantRfc = d.pick(6) == 0; bool prependable = d.pick(4) == 0;
         if (prependable) { Bytes leaf(33, 0x21), sib(33, 0x42); leaf[0] = 1; sib[0] = 1; Bytes dd = cat(leaf, sib); dd.push_back(1); o.fixedDoc = true; o.doc = imprint(1, dd); o.firstCorr = 1 + (int)d.pick(2); o.wantRfc = 0; } /* the document is the root of a local one-link chain at level 1 */
         Sig s = buildConsistent(ch, o); unsigned mm = prependable ? 1 : d.pick(4); std::string kind = "consistent";
         if (mm == 0) { for (int tries = 0; tries < 6; tries++) { Sig bak = s; std::string note; int k = (int)(d.raw(2) % SM_COUNT); if (applySigMut(s, k, d, note)) { kind = std::string("mutated:") + kSigMutName[k]; break; } s = bak; } }
-        Bytes enc = s.enc(); HeapBuf in(enc); KSI_Signature *sig = nullptr; int res = KSI_Signature_parseWithPolicy(ctx, in.p, in.n, KSI_VERIFICATION_POLICY_EMPTY, nullptr, &sig);
+        Bytes enc = s.enc();
+        if (d.pick(4) == 0) { Tlv top; std::vector<Tlv> kids; if (decodeOne(enc, top) && decodeList(top.payload.data(), top.payload.size(), kids)) { unsigned n = 1 + d.pick(2); static const unsigned tags[] = {0x080f, 0x1d, 0x7f0, 0x1e};
+                for (unsigned k = 0; k < n; k++) { unsigned fl = d.pick(4); kids.push_back(Tlv::raw(tags[d.pick(4)], Bytes{(uint8_t)k, 2, 3}, true, fl != 0)); } Tlv t2(0x800); t2.nested = true; t2.kids = kids; Bytes e2; if (t2.encode(e2)) { enc = e2; kind += "+unknown-extension"; c.cls("pool:unknown-extension-elements"); } } }
+        HeapBuf in(enc); KSI_Signature *sig = nullptr; int res = KSI_Signature_parseWithPolicy(ctx, in.p, in.n, KSI_VERIFICATION_POLICY_EMPTY, nullptr, &sig);
         if (res != KSI_OK) { trace += "parse(" + kind + ")=refused "; return; } Live l{sig, enc, s.docHash(), kind, o.calSalt}; Verdict v = evaluate(s); if (v.aggrRoot.size()) g_ext.roots[s.chains[0].aggrTime] = {v.aggrRoot, o.calSalt}; if (o.t + 100000 > g_ext.head) g_ext.head = o.t + 100000;
         // a parsed signature given in canonical encoding re-serializes to exactly the bytes it was parsed from
         Bytes now = serializeSig(sig); if (now != enc) { VF_FAIL(c, "C11:parse-serialize-not-identity", "canonical input does not re-serialize identically (" + kind + ")"); KSI_Signature_free(sig); return; }
         pool.push_back(l); trace += "parse(" + kind + (s.hasRfc ? ",rfc" : "") + ") "; c.cls(kind == "consistent" ? "pool:consistent" : "pool:inconsistent"); if (s.hasRfc) c.cls("pool:legacy"); };
     addParsed();
     for (unsigned step = 0; step < nops && !c.fail; step++) {
-        if (pool.empty()) { addParsed(); continue; } unsigned op = d.pick(12); size_t i = d.pick((uint32_t)pool.size()); std::string what;
+        if (pool.empty()) { addParsed(); continue; } unsigned op = d.pick(13); size_t i = d.pick((uint32_t)pool.size()); std::string what;
         switch (op) {
         case 0: if (pool.size() < 4) { addParsed(); what = "parse"; } break;
         case 1: { KSI_Signature *cl = nullptr; int res = KSI_Signature_clone(pool[i].sig, &cl); what = "clone " + num((long long)i); if (res != KSI_OK) { VF_FAIL(c, "C11:clone-failed", "clone failed res=" + num(res)); break; } Bytes cb = serializeSig(cl); if (cb != pool[i].birth) VF_FAIL(c, "C11:clone-serializes-differently", "clone of signature " + num((long long)i) + " serializes differently | " + trace);
@@ -63,6 +67,14 @@ static void runHistory(Dec d /* by value: both cache configurations replay the s
             VRes want = freshVerify(pool[i].birth, pool[i].doc, a);
             if (!(got == want)) VF_FAIL(c, "C11:verdict-differs-from-fresh-context:p" + num(a.policy), "verification on the shared context gave " + num(got.res) + "/" + num(got.result) + "/0x" + hex((const uint8_t *)&got.error, 2) + ", the same verification on a fresh context " + num(want.res) + "/" + num(want.result) + "/0x" + hex((const uint8_t *)&want.error, 2) + " | history: " + trace);
             break; }
+        case 11: { // verifyWithPolicy through the shared, caller-owned verification context
+            VArgs a; a.policy = d.pick(4) == 0 ? (int)d.pick(7) : 0; a.hashMode = (int)d.pick(3); static const uint64_t lv[] = {0, 0, 0, 1, 3, 200, 255}; a.level = lv[d.pick(7)]; a.extending = true; KSI_DataHash *dh = nullptr; if (a.hashMode) { Bytes h = pool[i].doc; if (a.hashMode == 2) h[h.size() - 1] ^= 1; KSI_DataHash_fromImprint(ctx, h.data(), h.size(), &dh); }
+            KSI_VerificationContext before = sharedVc; int got = KSI_Signature_verifyWithPolicy(pool[i].sig, dh, a.level, policyNo(a.policy), &sharedVc); what = "verifyWithPolicy(shared-context) " + num((long long)i) + " p" + num(a.policy) + " h" + num(a.hashMode) + " l" + std::to_string(a.level) + "=" + num(got); trace += what + " "; verifies++; verdictKinds.insert(num(got)); c.cls("shared-verification-context");
+            if (memcmp(&before, &sharedVc, sizeof before) != 0) VF_FAIL(c, "C11:caller-context-modified", "KSI_Signature_verifyWithPolicy changed the caller's verification context object | history: " + trace);
+            else { Ctx c2; setupCtx(c2); HeapBuf in2(pool[i].birth); KSI_Signature *s2 = nullptr; int want = KSI_UNKNOWN_ERROR; if (KSI_Signature_parseWithPolicy(c2, in2.p, in2.n, KSI_VERIFICATION_POLICY_EMPTY, nullptr, &s2) == KSI_OK) { KSI_VerificationContext v2; KSI_VerificationContext_init(&v2, c2); v2.extendingAllowed = 1; KSI_DataHash *d2 = nullptr; if (a.hashMode) { Bytes h = pool[i].doc; if (a.hashMode == 2) h[h.size() - 1] ^= 1; KSI_DataHash_fromImprint(c2, h.data(), h.size(), &d2); }
+                    want = KSI_Signature_verifyWithPolicy(s2, d2, a.level, policyNo(a.policy), &v2); KSI_DataHash_free(d2); KSI_VerificationContext_clean(&v2); } KSI_Signature_free(s2);
+                if (got != want) VF_FAIL(c, "C11:shared-context-verdict-differs:p" + num(a.policy), "verifyWithPolicy through a reused verification context returned " + num(got) + ", with a fresh context and fresh objects " + num(want) + " | history: " + trace); }
+            KSI_DataHash_free(dh); break; }
         case 7: { unsigned char *raw = nullptr; size_t n = 0; KSI_Signature_serialize(pool[i].sig, &raw, &n); KSI_free(raw); what = "serialize " + num((long long)i); trace += what + " "; break; }
         case 8: { // extend (derive): source must stay untouched
             KSI_Signature *ext = nullptr; KSI_Integer *to = nullptr; if (d.flag()) { Sig m; std::string e; if (decodeSig(pool[i].birth, m, e)) KSI_Integer_new(ctx, m.chains[0].aggrTime + 1 + d.pick(5000), &to); } int res = KSI_Signature_extendTo(pool[i].sig, ctx, to, &ext); KSI_Integer_free(to); what = "extend " + num((long long)i) + "=" + num(res); trace += what + " "; derives++;
@@ -80,7 +92,7 @@ static void runHistory(Dec d /* by value: both cache configurations replay the s
         }
         if (!c.fail) allIntact(what.empty() ? "step" : what);
     }
-    for (auto &l : pool) KSI_Signature_free(l.sig);
+    for (auto &l : pool) KSI_Signature_free(l.sig); sharedVc.signature = nullptr; KSI_VerificationContext_clean(&sharedVc);
     if (verifies >= 2 && verdictKinds.size() >= 2) c.cls("history:verifies-with-different-outcomes"); if (derives) c.cls("history:with-derive-operation"); c.nontrivial = (verifies >= 2 && verdictKinds.size() >= 2) || derives > 0;
 }
 
